@@ -135,7 +135,7 @@ def call(i: I8, s: S4, b: B16, f: F2, by_keyword: bool, res: int) -> bool:
         good = good and type(request_arg) is gen.cls(arg_dt)
         for name, want in expected.items():
             got = getattr(request_arg, name)
-            good = good and (got is None if want is None else got == want)
+            good = good and (got is None if want is None else (got == want and type(got) is type(want)))
     good = good and (ret is None if is_void_type(r.result_data_type) else ret is res)
     deprecated = [w for w in caught if issubclass(w.category, DeprecationWarning)]
     good = good and (len(deprecated) == 1 if r.deprecated else not deprecated)
